@@ -9,7 +9,7 @@ import numpy as np
 from .. import history
 from ..battery import call, _Raised
 
-TIERS = {"quick": 300, "thorough": 6000}
+TIERS = {"quick": 300, "thorough": 8000}
 WATCHDOG_S = {"quick": 1200, "thorough": 10000}
 RULE = ("one case = one sampler configuration: mode by index mod 4: 0,1 = started from an initial hypergraph (>=2 hyperedges of "
         "sizes 2-5, int/str/gap labels), 2 = conditioned on a degree and a size sequence with equal totals (realisable or not), "
